@@ -11,15 +11,20 @@ import (
 	"regexp"
 	"sort"
 	"strings"
+	"sync/atomic"
 
 	"github.com/janelia-flyem/dvid/datastore"
 	"github.com/janelia-flyem/dvid/dvid"
 
 	"verif/vlib"
 	"verif/vsrv"
+	"verif/vsync"
 )
 
-func init() { vlib.Workers["wlrun"] = wlRunWorker }
+func init() {
+	vlib.Workers["wlrun"] = wlRunWorker
+	vlib.Workers["wlruntxn"] = wlRunWorker // the same worker, run from the instrumented binary (C04: kill between engine transactions)
+}
 
 type wlOp struct {
 	Name   string
@@ -144,6 +149,9 @@ func wlWorkloads() map[string]*wlWorkload {
 			{"overwrite-a", true, post("node/"+A+"/kv/key/a", "a1")}, {"delete-b", true, del("node/" + A + "/kv/key/b")},
 			{"delete-c", true, del("node/" + A + "/kv/key/c")}, {"reput-c", true, post("node/"+A+"/kv/key/c", "c1")},
 			{"put-d", true, post("node/"+A+"/kv/key/d", "d1")},
+			// a key that has a value of its own in the child on top of the parent's value: deleted (own value away AND parent's value
+			// hidden - one step), then written again (deletion marker away AND value there - one step)
+			{"delete-a-own-value", true, del("node/" + A + "/kv/key/a")}, {"reput-a", true, post("node/"+A+"/kv/key/a", "a2")},
 		}}
 
 	// W3: labelmap proofreading (KV writes + mutation log appends)
@@ -564,6 +572,19 @@ func wlRunWorker(args []string) int {
 		to = len(w.Ops)
 	}
 	vsrv.SingleThreaded = true
+	// instrumented binary only: count the writing engine transactions (Update / Flush / Commit inside storage/badger) and
+	// die immediately before the n-th one - a kill point between the transactions of one store operation
+	var txns, txnCrashAt int64
+	fmt.Sscanf(os.Getenv("VERIF_CRASH_AT_TXN"), "%d", &txnCrashAt)
+	vsync.TxnHook = func(kind string) {
+		if kind == "View" {
+			return
+		}
+		if n := atomic.AddInt64(&txns, 1); n == txnCrashAt {
+			os.Stdout.Sync()
+			os.Exit(137)
+		}
+	}
 	if err := vsrv.Boot(dir, vsrv.Options{KVEngine: "vkv", LogEngine: "vlog"}); err != nil {
 		fmt.Printf("BOOTFAIL %s\n", strings.ReplaceAll(err.Error(), "\n", " "))
 		return 3
@@ -598,6 +619,7 @@ func wlRunWorker(args []string) int {
 		os.Stdout.Sync()
 		writeSnap(i + 1)
 	}
+	fmt.Printf("TXNS %d\n", atomic.LoadInt64(&txns))
 	fmt.Printf("DONE writes=%d\n", vsrv.WriteCount)
 	os.Stdout.Sync()
 	switch exit {
